@@ -20,7 +20,7 @@ func init() {
 		ID:    "C03",
 		Level: "model_checking",
 		Rule: "bounded-exhaustive: URL strings = every sequence of <=3 (thorough 4) fragments over a 46-fragment URL alphabet (schemes in several casings, ':' and its character references, tab/LF/CR and their references, C0 controls, NUL, DEL, backslash, percent-escapes, userinfo, query, fragment, IDN, Unicode spaces) " +
-			"and every byte string <=4 (thorough 5) over a 13-byte alphabet, placed in each of the 17 element/attribute positions the property lists, crossed with scheme allowlists {http,https,mailto} x relative on/off x custom check on http x scheme regexp x rewriter on/off. " +
+			"and every byte string <=4 (thorough 5) over a 13-byte alphabet, placed in each of the 17 element/attribute positions the property lists (alone, and as the second or first of a duplicated attribute next to a valid / rejected / empty value), crossed with scheme allowlists {http,https,mailto} x relative on/off x custom check on http x scheme regexp x rewriter on/off. " +
 			"Oracle on every surviving value (as re-tokenised): no byte <=0x20 or 0x7f, WHATWG-style scheme (independent of net/url) on the allowlist and approved by the custom check, or relative only if allowed; with a rewriter every surviving src is the rewriter's result. " +
 			"non-trivial = the URL attribute was removed or rewritten.",
 		Assumptions: []string{
@@ -210,6 +210,24 @@ func runC03(c *run.Ctx) {
 				}
 			}
 			eval(set, mk(p, u), string(u))
+		}
+	})
+	// duplicated URL attribute: a first (valid / rejected / empty) value followed by the enumerated one, and the reverse
+	firsts := []string{"http://e.x/ok", "x y", "", "javascript:x"}
+	kd := 2
+	if !c.Quick() {
+		kd = 3
+	}
+	SeqsS(c, "urldup", urlAl, 0, kd, func(u []byte, idx []int) {
+		for pi, p := range urlPositions {
+			if len(idx) == kd && pi >= 6 {
+				break
+			}
+			for _, f := range firsts {
+				q1, q2 := htmlAttrQuote(f), htmlAttrQuote(string(u))
+				eval(deepMain, []byte("<"+p.el+" "+p.attr+"="+q1+" "+p.attr+"="+q2+" title=t>"), string(u))
+				eval(deepRest, []byte("<"+p.el+" "+p.attr+"="+q2+" title=t "+p.attr+"="+q1+">"), string(u))
+			}
 		}
 	})
 	nb := 4
